@@ -41,14 +41,22 @@ class Sigma:
         else:
             subs = concrete["subnets"]
             self.addrs = [(s, h) for s in range(1, len(subs)) for h in range(subs[s])]
+            if concrete.get("addr_perm"):
+                # hosts listed out of canonical address order (valid: the host order is the scenario dict's)
+                self.addrs = [self.addrs[i] for i in concrete["addr_perm"]]
             self.N = len(self.addrs)
             self.nS = len(subs)
             self.nOS = concrete.get("n_os", 2)
             self.nSrv = concrete.get("n_srv", 2)
             self.nProc = concrete.get("n_proc", 2)
             self.nSens = concrete.get("n_sens", 1)
-        self.B0 = z3.Int("B0" + t)
-        self.B1 = z3.Int("B1" + t)
+        if concrete is None or concrete.get("symbolic_bounds"):
+            self.B0 = z3.Int("B0" + t)
+            self.B1 = z3.Int("B1" + t)
+        else:
+            # bounded mode: concrete (custom, larger than minimal) address-space bounds -> concrete vector width
+            b = concrete.get("bounds") or (len(concrete["subnets"]) + 1, max(concrete["subnets"][1:]) + 1)
+            self.B0, self.B1 = int(b[0]), int(b[1])
         self.asub = Fn("asub" + t, I_, I_)
         self.ahid = Fn("ahid" + t, I_, I_)
         self.hnum = Fn("hnum" + t, I_, I_, I_)
@@ -177,7 +185,8 @@ class Sigma:
         nS, N = self.nS, self.N
         if self.symbolic:
             ax += [nS >= 2, N >= 1, self.nOS >= 1, self.nSrv >= 1, self.nProc >= 1, self.nSens >= 1]
-        ax += [self.B0 >= nS, self.B1 >= 1]
+        ax += [z3.BoolVal(True) if isinstance(self.B0, int) and isinstance(nS, int) and self.B0 >= nS else self.B0 >= nS,
+               z3.BoolVal(True) if isinstance(self.B1, int) and self.B1 >= 1 else self.B1 >= 1]
         if not self.symbolic:
             subs = self.concrete["subnets"]
             for which, f1, f2 in (("e_shape", self.e_srv, self.e_os), ("p_shape", self.p_proc, self.p_os)):
@@ -353,9 +362,16 @@ class Sigma:
              "step_limit": None if limit is None else mk(self.step_limit, "int")}
         if with_bounds:
             d["address_space_bounds"] = (mk(self.B0, "int"), mk(self.B1, "int"))
-        return Obj(sccls, {"scenario_dict": PyDict(d, fresh=False), "name": "scn", "generated": False,
-                           "_e_map": None, "_pe_map": None, "host_num_map": self.host_num_map()},
-                   fresh=False, label="scenario")
+        # built by the REAL Scenario.__init__ (its enumerate loop is under a loop contract, see c_action.ScenarioInit);
+        # the host-number map it builds is then replaced by the canonical symbolic map the contract proves it equal to
+        sc = Obj(sccls, {}, fresh=True, label="scenario")
+        mem = I.find_member(sccls, "__init__")
+        I.ext_state.setdefault("sig", self)
+        I.call_function(mem[1], [sc, PyDict(d, fresh=False)], {"name": "scn", "generated": False})
+        sc.fresh = False
+        sc.fields["host_num_map"] = self.host_num_map()
+        I.ctx.writes[:] = [w for w in I.ctx.writes if not (w[0] == "field" and w[1] is sc)]
+        return sc
 
     def network_obj(self, I):
         """the Network object: built by running the REAL Network.__init__ on the symbolic scenario, so fields the
